@@ -1064,12 +1064,42 @@ func ruleL5(p *Prog) *RuleResult {
 		res.undecided("(*roaring.roaringArray).readFrom|consumed", "-", "anchor not found")
 	} else {
 		got := map[string]string{}
-		for _, b := range f.Blocks {
-			for _, ins := range b.Instrs {
-				c, ok := ins.(*ssa.Call)
-				if !ok || !c.Call.IsInvoke() || c.Call.Method.Name() != "Next" {
-					continue
+		// the decoder and the helpers it hands its byte source to (a payload branch moved into a function of its own)
+		decoders := []*ssa.Function{f}
+		inSet := map[*ssa.Function]bool{f: true}
+		for k := 0; k < len(decoders) && k < 12; k++ {
+			for _, b := range decoders[k].Blocks {
+				for _, ins := range b.Instrs {
+					c, ok := ins.(*ssa.Call)
+					if !ok {
+						continue
+					}
+					g := c.Call.StaticCallee()
+					if g == nil || g.Blocks == nil || inSet[g] || !inRepo(g) {
+						continue
+					}
+					for _, a := range c.Call.Args {
+						if _, isI := a.Type().Underlying().(*types.Interface); isI && len(f.Params) > 1 && types.Identical(a.Type(), f.Params[1].Type()) {
+							inSet[g] = true
+							decoders = append(decoders, g)
+							break
+						}
+					}
 				}
+			}
+		}
+		var nextCalls []*ssa.Call
+		for _, d := range decoders {
+			for _, b := range d.Blocks {
+				for _, ins := range b.Instrs {
+					if c, ok := ins.(*ssa.Call); ok && c.Call.IsInvoke() && c.Call.Method.Name() == "Next" {
+						nextCalls = append(nextCalls, c)
+					}
+				}
+			}
+		}
+		for range []int{0} {
+			for _, c := range nextCalls {
 				arg := c.Call.Args[0]
 				e := env()
 				e.opaque = func(call *ssa.Call) (lin, bool) {
@@ -1077,6 +1107,12 @@ func ruleL5(p *Prog) *RuleResult {
 						return linSym("nruns"), true
 					}
 					return lin{}, false
+				}
+				if d := c.Parent(); d != f {
+					// inside a helper the element count arrives as a parameter: not a quantity of its own
+					for _, prm := range d.Params {
+						e.vals[prm] = lin{}
+					}
 				}
 				l := e.eval(arg)
 				// which payload cell receives the bytes?
